@@ -208,9 +208,12 @@ class StandardFuncs(SnowfakeryPlugin):
             # never return an instant before a start with fractional seconds
             if timezone:
                 earliest = start_date.astimezone(timezone)
+                latest = end_date.astimezone(timezone)
             else:  # naive result, in UTC
                 earliest = (start_date - start_date.utcoffset()).replace(tzinfo=None)
-            return max(value, earliest)
+                latest = (end_date - end_date.utcoffset()).replace(tzinfo=None)
+            # ... nor after an end that lies in the same whole second as the start
+            return min(max(value, earliest), latest)
 
         def i18n_fake(self, locale: str, fake: str):
             # deprecated by still here for backwards compatibility
